@@ -40,6 +40,8 @@ B2 ==
      ObjectD("Mut", <<>>, <<FieldD("set", Named("T"), <<ArgD("in", NonNull(Named("TIn")))>>)>>),
      InputD("TIn", <<ArgDD("v", Named("Float"), IntV(1)), ArgDD("tags", ListOf(S), ListV(<<StrV("a"), StrV("b")>>))>>),
      EnumD("Color", <<EV("RED"), WD(EV("GREEN"), <<DU("deprecated", <<>>)>>)>>),
+     \* directives for the executable locations, among them the one for variable definitions
+     DirectiveD("onvar", <<ArgD("note", S)>>, <<"VARIABLE_DEFINITION", "QUERY", "FRAGMENT_DEFINITION">>),
      Ext(ObjectD("T", <<>>, <<FieldD("c", Named("Color"), <<>>)>>)),
      Ext(EnumD("Color", <<EV("BLUE")>>)),
      SchemaD(<<RootD("query", "Qry"), RootD("mutation", "Mut")>>) >>
